@@ -604,7 +604,7 @@ class _G:
         whole-frame operations that only make sense on a typed sub-frame)"""
         table = [("project", 10), ("getcol", 5), ("filter", 16), ("assign", 18), ("frame_arith", 8), ("frame_cmp", 4),
                  ("astype", 7), ("fillna", 6), ("where", 7), ("isin", 3), ("clip", 4), ("apply_rows", 4),
-                 ("rename", 6), ("other", 14 if self.other else 0)]
+                 ("rename", 6), ("other", 32 if self.other else 0)]
         pool = [k for k, w in table for _ in range(w)]
         for _ in range(20):
             op = self.pick(pool)
